@@ -81,13 +81,14 @@ Lemma rt_proj_app : forall u a b, rt_proj u (a ++ b) = rt_proj u a ++ rt_proj u 
 Proof. intros. unfold rt_proj. apply flat_map_app. Qed.
 
 (* a closed history: transmissions of the same bytes, then exactly one outcome *)
-(* an outcome after j retransmissions: removed by an ACK, or one NACK call - reason RST, or
-   reason TOO_MANY_RETRIES and then j is exactly the message's max_retransmit *)
+(* an outcome after j retransmissions: removed by an ACK, or one NACK call - and if its reason is
+   TOO_MANY_RETRIES then j is exactly the message's max_retransmit (the other reasons: RST from
+   the peer, or the reason given to coap_session_disconnected) *)
 Definition rt_outcome_ok (j : nat) (o : rt_tag) : Prop :=
   match o with
   | PAcked => True
   | PNack r c mx => Z.of_nat j = c /\ 0 <= c <= mx /\ mx <= 255 /\
-                    (r = rt_NACK_RST \/ (r = rt_NACK_TOO_MANY_RETRIES /\ c = mx))
+                    (r = rt_NACK_TOO_MANY_RETRIES -> c = mx)
   | PTx _ => False
   end.
 Definition rt_closed (l : list rt_tag) : Prop :=
@@ -227,6 +228,24 @@ Proof.
     + intros u Hu. cbn. assert (X : (qn_uid n =? u) = false) by lia. rewrite X. reflexivity.
 Qed.
 
+(* several nodes leave the queue, each with one NACK call of the same reason *)
+Lemma rt_rel_drop_nacked : forall t reason rm tr k ns,
+  reason <> rt_NACK_TOO_MANY_RETRIES ->
+  rt_rel tr k (rm ++ ns) ->
+  rt_rel (tr ++ map (rt_nack_of t reason) rm) k ns.
+Proof.
+  intros t reason. induction rm as [|n rm IH]; intros tr k ns Hr R; cbn [map app] in *.
+  - rewrite app_nil_r. exact R.
+  - replace (tr ++ rt_nack_of t reason n :: map (rt_nack_of t reason) rm)
+      with ((tr ++ [rt_nack_of t reason n]) ++ map (rt_nack_of t reason) rm)
+      by (rewrite <- app_assoc; reflexivity).
+    apply IH; [exact Hr|].
+    eapply rt_rel_drop with (n := n) (tag := PNack reason (qn_cnt n) (qn_max n)); [| | |exact R].
+    + intros (A & B & M & O). cbn. repeat split; try lia; intros X; contradiction.
+    + cbn. rewrite Z.eqb_refl. reflexivity.
+    + intros u Hu. cbn. assert (X : (qn_uid n =? u) = false) by lia. rewrite X. reflexivity.
+Qed.
+
 (* ------------------------------------------------------------------ the machine keeps it *)
 Lemma rt_enqueue_nodes : forall st n d,
   Permutation (rt_nodes (rs_q (rt_enqueue st n d))) (n :: rt_nodes (rs_q st)) /\
@@ -281,6 +300,7 @@ Definition rt_ev_ok (ev : rt_event) : Prop :=
   match ev with
   | RtAdvance dt => 0 <= dt
   | RtSend _ _ _ cfg _ => 1 <= rc_max cfg <= 255
+  | RtDisconnect _ reason => reason <> rt_NACK_TOO_MANY_RETRIES /\ reason <> rt_NACK_ICMP_ISSUE
   | _ => True
   end.
 
@@ -290,7 +310,7 @@ Lemma rt_step_rel : forall st ev tr,
   let (st', o) := rt_step st ev in
   rt_rel (tr ++ o) (rs_uid st') (rt_nodes (rs_q st')).
 Proof.
-  intros st ev tr Hev R. destruct ev as [dt|s m b cfg r| |s m|s m|s m tok|]; cbn [rt_step].
+  intros st ev tr Hev R. destruct ev as [dt|s m b cfg r| |s m|s m|s m tok|s reason|]; cbn [rt_step].
   - cbn. rewrite app_nil_r. exact R.
   - unfold rt_send. set (T := fp_calc_timeout _ _ _ _ _).
     set (n := sq_mk_node _ _ _ _ _ _ _). set (st1 := rt_mk_state _ _ _ _).
@@ -320,7 +340,7 @@ Proof.
                                          (qn_cnt n) (qn_max n)])
                           (rs_uid st) (rt_nodes q')).
       { eapply rt_rel_drop with (n := n) (tag := PNack rt_NACK_RST (qn_cnt n) (qn_max n));
-          [intros (A & B & M & O); cbn; repeat split; try lia; left; reflexivity| | |].
+          [intros (A & B & M & O); cbn; repeat split; try lia; intros X; discriminate| | |].
         - cbn. rewrite Z.eqb_refl. reflexivity.
         - intros u Hu. cbn. assert (X : (qn_uid n =? u) = false) by lia. rewrite X. reflexivity.
         - eapply rt_rel_perm; [exact P|exact R]. }
@@ -340,6 +360,12 @@ Proof.
     pose proof (rt_fire_rel (rt_budget (rs_q (rt_set_q st q'))) (rt_set_q st q') _ R1) as H.
     destruct (rt_fire _ (rt_set_q st q')) as [st1 o]. destruct H as [H _].
     rewrite <- app_assoc in H. exact H.
+  - unfold rt_disconnect.
+    pose proof (rt_nodes_cancel (rt_sess_match s) (rs_q st)) as P.
+    destruct (sq_cancel (rt_sess_match s) (rs_q st)) as [rm q']. cbn [fst snd rt_set_q rs_uid rs_q] in *.
+    destruct rm as [|n rm].
+    + apply rt_rel_neutral; [intros u; reflexivity|]. eapply rt_rel_perm; [exact P|exact R].
+    + apply rt_rel_drop_nacked; [cbn in Hev; tauto|]. eapply rt_rel_perm; [exact P|exact R].
   - apply rt_rel_neutral; [intros u; reflexivity|exact R].
 Qed.
 
@@ -432,4 +458,35 @@ Proof.
   split; [lia|]. split; [lia|]. split; [exists l1, l2, d; auto|].
   cbn [rt_step]. unfold rt_ack, rt_rst. rewrite H.
   destruct (rt_fire_all (rt_set_q st q')); split; reflexivity.
+Qed.
+
+(* ------------------------------------------------------------------ session disconnect *)
+(* coap_session_disconnected: exactly the session's messages leave the queue, each with one NACK
+   call, in queue order; the messages of all other sessions keep deadline and place *)
+Theorem rt_disconnect_spec : forall st s reason,
+  let (st', o) := rt_disconnect st s reason in
+  sq_abs (rs_base st') (rs_q st') =
+    filter (fun e => negb (rt_sess_match s (snd e))) (sq_abs (rs_base st) (rs_q st)) /\
+  rs_now st' = rs_now st /\
+  let rm := filter (rt_sess_match s) (rt_nodes (rs_q st)) in
+  o = match rm with
+      | [] => [RoNackNoPdu (rs_now st) s reason 0]
+      | _ => map (rt_nack_of (rs_now st) reason) rm
+      end.
+Proof.
+  intros st s reason. unfold rt_disconnect.
+  destruct (sq_abs_cancel (rt_sess_match s) (rs_q st) (rs_base st)) as [A B].
+  destruct (sq_cancel (rt_sess_match s) (rs_q st)) as [rm q']. cbn [fst snd] in *.
+  cbn [rt_set_q rs_base rs_q rs_now]. split; [exact A|]. split; [reflexivity|].
+  unfold rt_nodes. rewrite <- B. reflexivity.
+Qed.
+
+(* before the repair the first queued message of the session was reported twice *)
+Theorem rt_disconnect_old_double_nack : exists st s reason u,
+  reason <> rt_NACK_TOO_MANY_RETRIES /\ reason <> rt_NACK_ICMP_ISSUE /\
+  rt_proj u (snd (rt_disconnect_old st s reason)) = [PNack reason 0 4; PNack reason 0 4].
+Proof.
+  exists (rt_mk_state 600 0 [(2000, sq_mk_node 0 0 10 0 2000 4 []); (500, sq_mk_node 1 1 20 0 2000 4 [])] 2),
+         0, 1, 0.
+  split; [discriminate|]. split; [discriminate|]. vm_compute. reflexivity.
 Qed.
